@@ -1020,6 +1020,13 @@ class Interp:
             return ClassRef(e.id)
         if e.id in ("int", "float", "str", "bool", "list", "dict", "tuple", "set", "type", "object"):
             return ClassRef(e.id)
+        resolver = getattr(self, "module_resolver", None)
+        if resolver is not None:
+            # a helper function defined at the top level of the unit's own module (or imported by it from a sibling module of the package) that the contract
+            # does not model: its *real body* is interpreted (a refactoring that extracts a helper stays verifiable; a change hidden in a new helper is seen)
+            c = resolver(e.id)
+            if c is not None:
+                return c
         raise Unsupported(f"unknown name {e.id!r}", e)
 
     def ex_Tuple(self, e, env):
@@ -1519,6 +1526,12 @@ class Interp:
         if key in self.calls:
             args, kwargs = self._eval_args(e, env)
             return self.calls[key](self.ctx, args, kwargs)
+        if key in PURE_TEXT_FUNCTIONS:
+            # pure functions of texts from the standard library, evaluated by CPython when every argument is a concrete string (symbolic arguments: no contract)
+            args, kwargs = self._eval_args(e, env)
+            if not kwargs and args and all(isinstance(a, str) for a in args):
+                return PURE_TEXT_FUNCTIONS[key](*args)
+            raise Unsupported(f"call of {key} on symbolic text has no contract", e)
         # generator / comprehension arguments of all/any
         if key in ("all", "any") and len(e.args) == 1 and isinstance(e.args[0], (ast.GeneratorExp, ast.ListComp)):
             return self.all_any(key, e.args[0], env)
@@ -1924,6 +1937,12 @@ def _mk_replace_all(s, a, b):
         return z3.SeqRef(z3.Z3_mk_seq_replace_all(ctx.ref(), s.as_ast(), a.as_ast(), b.as_ast()), ctx)
     except Exception:
         raise Unsupported("str.replace (all occurrences) not available in this z3")
+
+
+import os as _os  # noqa: E402
+
+PURE_TEXT_FUNCTIONS = {"os.path.splitext": _os.path.splitext, "os.path.basename": _os.path.basename, "os.path.dirname": _os.path.dirname, "os.path.join": _os.path.join,
+                       "os.path.normpath": _os.path.normpath, "os.path.isabs": _os.path.isabs}
 
 
 class BoundMethod(Exception):
